@@ -452,7 +452,75 @@ def key(S):
     return (rawfull(S.T.getRoot()), rank_index_view(S.T))
 
 
-CASES = {"history": bfs.replay_case, "ctor": case_ctor, "other_ctor": case_other_ctor, "rejoin": case_rejoin}
+
+
+# ---------------------------------------------------------------------------
+# read-only binary operations between the roots of two tensors: comparing or
+# co-iterating two trees may not enter anything into (or drop anything from)
+# either tensor's rank lists.
+
+def _walk2(op, a, b):
+    """Traverse op(a, b) to the leaves (the lazy result offers pairs of payloads)."""
+    n = 0
+    if op == "|":
+        for _, (_, x, y) in a | b:
+            n += 1
+            if isinstance(x, Fiber) and isinstance(y, Fiber):
+                n += _walk2(op, x, y)
+    elif op == "^":
+        for _, (_, x, y) in a ^ b:
+            n += 1
+    elif op == "&":
+        for _, (x, y) in a & b:
+            n += 1
+            if isinstance(x, Fiber) and isinstance(y, Fiber):
+                n += _walk2(op, x, y)
+    elif op == "-":
+        for _, x in a - b:
+            n += 1
+    return n
+
+
+READERS = ("==", "!=", "|", "^", "&", "-")
+
+
+def case_readers(case):
+    sa, sb = case
+    out = []
+    feats = {"a:" + f for f in tree_features(sa, 2)} | {"b:" + f for f in tree_features(sb, 2)}
+    for op in READERS:
+        try:
+            TA = Tensor.fromFiber(["M", "N"], mktree(sa, 2), shape=[2, 2])
+            TB = Tensor.fromFiber(["M", "N"], mktree(sb, 2, tag=2), shape=[2, 2])
+            va, vb = rank_index_view(TA), rank_index_view(TB)
+            a, b = TA.getRoot(), TB.getRoot()
+            if op == "==":
+                a == b
+            elif op == "!=":
+                a != b
+            else:
+                _walk2(op, a, b)
+            for side, T, v in (("left", TA, va), ("right", TB, vb)):
+                m = mirror(T)
+                if m:
+                    out.append(("reader:" + op, "operand-mirror:" + m, feats | {"side:" + side}, v, rank_index_view(T)))
+                elif rank_index_view(T) != v:
+                    out.append(("reader:" + op, "operand-rank-lists-changed", feats | {"side:" + side}, v,
+                                rank_index_view(T)))
+        except Exception as ex:
+            core.CUR.path("reader-raised:%s:%s" % (op, type(ex).__name__))     # C04 / C12 judge the results
+    if content(mktree(sa, 2)) != content(mktree(sb, 2)):
+        core.CUR.nt("readers")
+    return out
+
+
+def shard_readers(acc, shard, nshards, params):
+    u = t2(2, 2)
+    core.drive(acc, "readers", case_readers, ((a, b) for a in u for b in u), shard, nshards,
+               family="readers[T2(2,2)^2 x {==,!=,|,^,&,-}]")
+
+
+CASES = {"history": bfs.replay_case, "ctor": case_ctor, "other_ctor": case_other_ctor, "rejoin": case_rejoin, "readers": case_readers}
 
 
 def run(ctx):
@@ -464,6 +532,8 @@ def run(ctx):
         ctx.shards(shard_ctor, (3, 2 if q else 3))
         ctx.shards(shard_other_ctor, None, nshards=16)
         ctx.shards(shard_rejoin, None, nshards=16)
+    if not only or "readers" in only:
+        ctx.shards(shard_readers, None)
     fams = [
         ("bfs-2x2", [(2, (2, 2), None), (2, (2, 2), (('0', '1'), None)), (2, (2, 2), (('-', '-'), ('1', '0')))],
          3 if q else None, 60 if q else 900),
@@ -474,6 +544,8 @@ def run(ctx):
         fams.append(("bfs-3x2", [(2, (3, 2), None), (2, (3, 2), (('0', '1'), None, ('1', '1')))], 4, 600))
     ctx.bounds = {"ctor": "T2(2,2) (100 trees) and T3(2,2,2) trees with <=%d stored leaves x 6 constructor paths x all transforms; "
                           "fromUncompressed nests 2x2, 2x2x2 over {0,1}; fromRandom seeds 0..7; makePopulated; empty" % (2 if q else 3)}
+    ctx.bounds["readers"] = ("every ordered pair of T2(2,2) as two tensors x {==, !=, | ^ & - traversed to the leaves}: mirror "
+                             "predicate and unchanged rank lists on both operands")
     for name, inits, maxd, budget in fams:
         if only and not any(name.startswith(o) for o in only):
             continue
